@@ -44,7 +44,7 @@ def _mk_classes():
             self.n_connect = 0
 
         def _next_time(self):
-            return self.time + timedelta(minutes=self.steps[self.k % len(self.steps)])
+            return self.time + self.steps[self.k % len(self.steps)] * hs.tick()
 
         def val(self, out, t):
             return float(hs.mins(t)) + 1000.0 * (self.oid * 4 + self.outs.index(out))
@@ -267,8 +267,32 @@ def _log_get(out, world, key):
     out.get_data = get
 
 
+class tick_of:
+    """context manager: lattice tick of a spec (for code that converts live datetimes after run() returned)"""
+
+    def __init__(self, spec):
+        self.spec = spec
+
+    def __enter__(self):
+        self.old = hs.TICK[0]
+        hs.TICK[0] = timedelta(microseconds=self.spec["tick_us"]) if self.spec.get("tick_us") else timedelta(minutes=1)
+
+    def __exit__(self, *a):
+        hs.TICK[0] = self.old
+
+
 def run(spec, mem_loc=None):
-    """-> (outcome, message, trace, built). outcome = 'ok' or exception class name"""
+    """-> (outcome, message, trace, built). outcome = 'ok' or exception class name.
+    spec["tick_us"] (optional) = length of one lattice tick in microseconds (default one minute)."""
+    old = hs.TICK[0]
+    hs.TICK[0] = timedelta(microseconds=spec["tick_us"]) if spec.get("tick_us") else timedelta(minutes=1)
+    try:
+        return _run(spec, mem_loc)
+    finally:
+        hs.TICK[0] = old
+
+
+def _run(spec, mem_loc=None):
     b = build(spec, mem_loc)
     try:
         b.comp.run(end_time=hs.tm(spec["end"]))
@@ -538,6 +562,11 @@ def monitor(spec, trace, want=("C01", "C02")):
 # life-cycle monitor (C03)
 # ======================================================================================
 def lifecycle(spec, trace, built, outcome):
+    with tick_of(spec):
+        return _lifecycle(spec, trace, built, outcome)
+
+
+def _lifecycle(spec, trace, built, outcome):
     import finam as fm
 
     viol = []
